@@ -25,6 +25,7 @@ import (
 	"github.com/pentops/j5/internal/structure"
 	"google.golang.org/protobuf/reflect/protodesc"
 	"google.golang.org/protobuf/reflect/protoreflect"
+	"google.golang.org/protobuf/reflect/protoregistry"
 	"google.golang.org/protobuf/types/descriptorpb"
 )
 
@@ -68,6 +69,8 @@ func (emptyResolver) FindFileByPath(fn string) (protocompile.SearchResult, error
 
 // stage runs f under recover and a timeout. A timed-out stage leaves its goroutine running
 // (the caller is expected to stop the process soon after).
+var stageTimedOut bool
+
 type stageResult struct {
 	class  string // ok | err | panic | timeout
 	detail string
@@ -91,6 +94,7 @@ func stage(timeout time.Duration, f func() error) stageResult {
 	case r := <-ch:
 		return r
 	case <-time.After(timeout):
+		stageTimedOut = true
 		return stageResult{"timeout", ""}
 	}
 }
@@ -160,6 +164,41 @@ func imagePrinted(pkg string, files linker.Files) (*source_j5pb.SourceImage, map
 	}
 	img.Packages = []*source_j5pb.PackageInfo{{Name: pkg, Label: "Generated"}}
 	return img, printed, nil
+}
+
+// imageFromDescriptors: a hand-built file plus everything it imports from the built-in registry.
+func imageFromDescriptors(pkg string, fds ...*descriptorpb.FileDescriptorProto) (*source_j5pb.SourceImage, error) {
+	img := &source_j5pb.SourceImage{Packages: []*source_j5pb.PackageInfo{{Name: pkg, Label: "Kernel"}}}
+	seen := map[string]bool{}
+	var add func(path string) error
+	add = func(path string) error {
+		if seen[path] {
+			return nil
+		}
+		seen[path] = true
+		fd, err := protoregistry.GlobalFiles.FindFileByPath(path)
+		if err != nil {
+			return err
+		}
+		imps := fd.Imports()
+		for i := 0; i < imps.Len(); i++ {
+			if err := add(imps.Get(i).Path()); err != nil {
+				return err
+			}
+		}
+		img.File = append(img.File, protodesc.ToFileDescriptorProto(fd))
+		return nil
+	}
+	for _, fd := range fds {
+		for _, dep := range fd.Dependency {
+			if err := add(dep); err != nil {
+				return nil, err
+			}
+		}
+		img.File = append(img.File, fd)
+		img.SourceFilenames = append(img.SourceFilenames, fd.GetName())
+	}
+	return img, nil
 }
 
 func clientJSON(api *client_j5pb.API) ([]byte, error) {
